@@ -240,6 +240,14 @@ func spec() corr.Spec {
 			}
 			return 120000
 		},
+		// independent scripts: spread them over child processes (the lock scripts of C17 are scheduler-driven and cannot
+		// share a process; for both properties it keeps a run through the failing-input search well under two minutes)
+		Shards: func(tier string) int {
+			if tier == "quick" {
+				return 4
+			}
+			return 10
+		},
 		Gen: genCase,
 		Run: runCase,
 		NonTrivial: func(c corr.Case, r corr.Result) bool {
